@@ -250,6 +250,7 @@ func rule044(r *core.Run) {
 	}
 	name := fname(r, fn)
 	var seek, skip *ssa.Call
+	skipNotMarker := ""
 	core.Instrs(fn, func(in ssa.Instruction) {
 		c, ok := in.(*ssa.Call)
 		if !ok {
@@ -264,8 +265,15 @@ func rule044(r *core.Run) {
 				gs := r.P.SliceOf(g.If.Cond, core.SliceOpts{Depth: -1})
 				cd := core.CondOf(g.If.Cond)
 				if eq, ok := g.Equality(); gs.Has("call:goskipiter.(*Iterator).Key") && gs.Has("field:gofakes3.ListBucketPage.Marker") && ok && eq {
-					_ = cd
 					skip = c
+					// the key is compared with the marker itself — not with a start position that may also be the prefix
+					other := cd.Y
+					if c2, isCall := stripIface(cd.Y).(*ssa.Call); isCall && r.P.CalleeName(c2) == "goskipiter.(*Iterator).Key" {
+						other = cd.X
+					}
+					if !isLoadOf(r, core.Forward(stripIface(other)), "gofakes3.ListBucketPage.Marker") {
+						skipNotMarker = pos(r, g.If)
+					}
 				}
 			}
 		}
@@ -309,6 +317,8 @@ func rule044(r *core.Run) {
 		}
 	}
 	r.Check(skip != nil && seek != nil && core.Reaches(seek, skip), "R04.4", key(name, "marker entry skipped"), p0, "the entry equal to the marker is skipped once", "the entry equal to the marker is not skipped: the last key of a page is repeated on the next page")
+	r.Check(skipNotMarker == "", "R04.4", key(name, "only the marker itself is skipped"), p0, "the skipped entry is compared with page.Marker",
+		"the entry that is skipped after seeking is compared with a start position that is not the marker itself (at "+skipNotMarker+"): when the listing starts at the prefix, a live key equal to the prefix is dropped")
 	// the listing loop uses the same iterator
 	if seek != nil {
 		same := false
@@ -624,4 +634,19 @@ func rule047(r *core.Run) {
 	}
 	r.Check(seeded, "R04.7", key(fname(r, fn), "marker's common prefix remembered"), p0, "dedupe value seeded from Prefix.Match(page.Marker)",
 		"a page that starts after a marker inside a common prefix reports that prefix again: with delimiter and a page boundary inside a group, the same CommonPrefix appears on consecutive pages")
+}
+
+// stripIface peels interface conversions.
+func stripIface(v ssa.Value) ssa.Value {
+	for i := 0; i < 3; i++ {
+		switch x := v.(type) {
+		case *ssa.MakeInterface:
+			v = x.X
+		case *ssa.ChangeInterface:
+			v = x.X
+		default:
+			return v
+		}
+	}
+	return v
 }
